@@ -1704,8 +1704,13 @@ class Pool:
             if self._putlock:
                 self._putlock.clear()
             self._worker_handler.close()
-            self._taskqueue.put(None)
+            # the supervisor must have stopped before the end-of-work
+            # sentinel is queued: the task handler sends one sentinel per
+            # worker listed at that moment, and a worker the supervisor was
+            # just starting would never get one (join() would wait for it
+            # for ever).
             stop_if_not_current(self._worker_handler)
+            self._taskqueue.put(None)
 
     def terminate(self):
         debug('terminating pool')
